@@ -34,6 +34,7 @@ func NewCtx(p *core.Prog, r *core.Report, graph, tier string) *Ctx {
 	if graph == "cha" {
 		c.G = p.CHA
 	}
+	curCtx = c
 	return c
 }
 
